@@ -262,6 +262,13 @@ def gen_prices_op(rng, w):
             ups.append((s.id, [(c, rng.choice([0.0, 0.1, 0.25, 0.4])) for c in rng.sample(CHARGER_IDS, rng.randint(1, 3))]))
     if rng.random() < 0.2:
         ups.append(('s9', [('DCFC', 0.3)]))
+    # a tariff table may hold any number, including a negative price (the station pays the vehicle): drawn from a stream of its
+    # own so that the other generated cases stay as they were
+    rng2 = random.Random(f'negative-tariff|{ups}')
+    if ups and rng2.random() < 0.25:
+        sid, rows = ups[rng2.randrange(len(ups))]
+        j = rng2.randrange(len(rows))
+        rows[j] = (rows[j][0], rng2.choice([-0.05, -0.2]))
     return ('prices', ups)
 
 
